@@ -38,7 +38,7 @@ def collect(res, reps, maxn):
 def run(tier, seed, work):
     res = vp.Result("C13", tier, seed, "exploration")
     maxn = 4 if tier == "quick" else 5
-    nrandom = 320 if tier == "quick" else 5000
+    nrandom = 1600 if tier == "quick" else 8000
     nsh = 16 if tier == "quick" else 32
     collect(res, vp.pmap(shard, [(maxn, i, nsh, work, nrandom, seed) for i in range(nsh)]), maxn)
     res.exhaustive = True
